@@ -56,8 +56,9 @@ Inductive unit_kind :=
                               (* AT: statements on one proxy connection; each of the first metaMiss
                                  statements loads table meta-data on a target connection; a fault at
                                  statement k ends the unit early *)
-  | UAtPhase2                 (* AT phase two of one branch: rollback = undo on a target connection,
-                                 commit = queued, the worker later deletes the undo log on a target connection *)
+  | UAtPhase2 (closed : bool)  (* AT phase two of one branch: undo (rollback) or undo-log deletion by the
+                                 worker (commit) on a target connection; closed = the code gives the
+                                 connection back (read off the source by the translator) *)
   | USelect                   (* load-balance selection *)
   | UMeta (miss : bool)       (* one table-meta lookup *)
   | URefreshFixed             (* cache refresh tick that closes its connection *)
@@ -79,7 +80,7 @@ Definition journal (k : unit_kind) (o : outcome) : list ev :=
   | UAt n mm fault =>
       let n' := match fault with Some f => Nat.min f n | None => n end in
       bracket (RConn 0) (at_stmts n' mm)
-  | UAtPhase2 => bracket (RConn 1) []
+  | UAtPhase2 closed => if closed then bracket (RConn 1) [] else [Acq (RConn 1)]
   | USelect => []
   | UMeta _ => bracket (RConn 1) []
   | URefreshFixed => bracket (RConn 1) []
@@ -87,16 +88,16 @@ Definition journal (k : unit_kind) (o : outcome) : list ev :=
   end.
 
 Definition pinned (k : unit_kind) : bool :=
-  match k with URefreshPinned => true | _ => false end.
+  match k with URefreshPinned => true | UAtPhase2 closed => negb closed | _ => false end.
 
 (* outstanding resources after a history (a list of events in any order) *)
 Definition outstanding (r : res) (l : list ev) : nat := acquired r l - released r l.
 
 (* the tie: what the harness observed for one unit kind (deltas after settling) *)
-Record obs := mkObs { o_kind : unit_kind; o_outcome : outcome; o_inuse0 : nat; o_inuse1 : nat; o_gor : nat }.
+Record obs := mkObs { o_kind : unit_kind; o_outcome : outcome; o_runs : nat; o_inuse0 : nat; o_inuse1 : nat; o_gor : nat }.
 
 Definition obs_mismatch (x : obs) : list N :=
-  let j := journal (o_kind x) (o_outcome x) in
+  let j := concat (repeat (journal (o_kind x) (o_outcome x)) (o_runs x)) in
   (if Nat.eqb (outstanding (RConn 0) j) (o_inuse0 x) then [] else [1%N])
   ++ (if Nat.eqb (outstanding (RConn 1) j) (o_inuse1 x) then [] else [2%N])
   ++ (if Nat.eqb (outstanding RGor j) (o_gor x) then [] else [3%N]).
